@@ -79,7 +79,8 @@ class Ctx:
         self.tlc_cmds = []
         self.extra = {}
         self.assumptions = []
-        self.write_evidence = write_evidence
+        # evidence is only ever written for runs against /repo itself
+        self.write_evidence = write_evidence and os.path.realpath(REPO) == "/repo"
         self.max_print = 20
 
     # ---- TLC bookkeeping -------------------------------------------------
